@@ -601,8 +601,24 @@ def stage_repo_tests(pid, tier, seed, d, binp, st, ctx):
     if tier == "quick":
         for t in REPO_TEST_SLOW:
             cmd += ["--skip", t]
-    p = subprocess.run(cmd, cwd="/repo", env=env, text=True, stdout=subprocess.PIPE, stderr=subprocess.STDOUT, timeout=3600)
-    out = p.stdout or ""
+    # a change under test may make tests of the suite hang or spin: the suite gets a time budget, is killed as a group when it
+    # is used up, and whatever was logged until then is validated (every rule of LifeTrace.tla is a safety rule on prefixes)
+    import signal
+    budget = 420 if tier == "quick" else 1200
+    pr = subprocess.Popen(cmd, cwd="/repo", env=env, text=True, stdout=subprocess.PIPE, stderr=subprocess.STDOUT, start_new_session=True)
+    timed_out = False
+    try:
+        out, _ = pr.communicate(timeout=budget)
+    except subprocess.TimeoutExpired:
+        timed_out = True
+        try:
+            os.killpg(pr.pid, signal.SIGKILL)
+        except ProcessLookupError:
+            pass
+        out, _ = pr.communicate()
+    out = out or ""
+    if timed_out:
+        ctx["log"]("note: the repository's test suite did not finish within %d s and was stopped; the events logged so far are validated" % budget)
     if "error: could not compile" in out or "error[E" in out:
         open(os.path.join(d, "repo_tests.out"), "w").write(out[-30000:])
         raise ctx["ToolError"]("the repository's test suite does not build with the hooks on (see repo_tests.out)")
